@@ -62,8 +62,10 @@ try:
         if hasattr(M, 'scorer'):
             h.update(repr(sorted(M.scorer.chars2int.items())).encode())
             h.update(repr(M.scorer.matrix).encode())
+    out['inventories'] = {}
     for k in ['diacritics', 'vowels', 'tones']:
         h.update(repr(rc(k)).encode())
+        out['inventories'][k] = hashlib.sha256(repr(rc(k)).encode()).hexdigest()
     out['digest'] = h.hexdigest()
 except BaseException as e:
     out = {'ok': False, 'error': type(e).__name__ + ': ' + str(e)[:200]}
